@@ -42,6 +42,20 @@ struct ReplaySpec {
     start: u64,
     end: u64,
     read_faults: Option<(u8, u8, u64)>,
+    /// the queried handle comes from `clone_for_thread()` of an opened handle
+    #[serde(default)]
+    via_clone: bool,
+}
+
+/// The handle that is asked: a freshly opened one, or (every other contig) a handle obtained from
+/// `clone_for_thread()` - the documented way to query from several threads.
+fn handle(via_clone: bool) -> Result<Decompressor, String> {
+    let d = Decompressor::open(PATH, DecompressorConfig { verbosity: 0 }).map_err(|e| format!("{e:#}"))?;
+    if via_clone {
+        d.clone_for_thread().map_err(|e| format!("{e:#}"))
+    } else {
+        Ok(d)
+    }
 }
 
 const PATH: &str = "/sim/out.agc";
@@ -72,9 +86,12 @@ fn explore(source: PipeSpec, only: Option<ReplaySpec>, index: u64, want_sample: 
     let mut first: Option<Violation> = None;
     let mut rr = Rng::new(arch_id ^ 0x7);
     r.count("archives", 1);
+    let mut contig_no = 0u64;
     for s in &wl.samples {
         for (cname, _) in &s.contigs {
             let cname = cname.trim().to_string();
+            contig_no += 1;
+            let via_clone = only.as_ref().map(|o| o.via_clone).unwrap_or((contig_no + index) % 2 == 0);
             if let Some(o) = &only {
                 if o.sample != s.name || o.contig != cname {
                     continue;
@@ -85,7 +102,7 @@ fn explore(source: PipeSpec, only: Option<ReplaySpec>, index: u64, want_sample: 
             let (base, _) = run_plain(world_with(&bytes, None), move || -> Result<(Vec<u8>, usize, Vec<u32>), String> {
                 let mut d = Decompressor::open(PATH, DecompressorConfig { verbosity: 0 }).map_err(|e| format!("{e:#}"))?;
                 let full = d.get_contig(&sn, &cn).map_err(|e| format!("{e:#}"))?;
-                let mut d2 = Decompressor::open(PATH, DecompressorConfig { verbosity: 0 }).map_err(|e| format!("{e:#}"))?;
+                let mut d2 = handle(via_clone)?;
                 let len = d2.get_contig_length(&sn, &cn).map_err(|e| format!("{e:#}"))?;
                 let segs = d2.get_contig_segments_desc(&sn, &cn).map_err(|e| format!("{e:#}"))?;
                 Ok((full, len, segs.iter().map(|x| x.raw_length).collect()))
@@ -99,12 +116,13 @@ fn explore(source: PipeSpec, only: Option<ReplaySpec>, index: u64, want_sample: 
                 }
                 Err(p) => {
                     if first.is_none() {
-                        first = Some(viol(&source, &s.name, &cname, 0, 0, faults, index, arch_id, "panic", format!("full extraction / length of {}/{cname:?} panicked: {p}", s.name)));
+                        first = Some(viol(&source, &s.name, &cname, 0, 0, faults, index, arch_id, "panic", format!("full extraction / length of {}/{cname:?} panicked: {p}", s.name), via_clone));
                     }
                     continue;
                 }
             };
             r.count("contigs", 1);
+            r.count(if via_clone { "handle.clone_for_thread" } else { "handle.open" }, 1);
             r.count("segments", seg_lens.len() as u64);
             if seg_lens.len() > 1 {
                 r.count("probe.multi_segment_contig", 1);
@@ -112,7 +130,7 @@ fn explore(source: PipeSpec, only: Option<ReplaySpec>, index: u64, want_sample: 
             if len != full.len() {
                 r.evaluations += 1;
                 if first.is_none() {
-                    first = Some(viol(&source, &s.name, &cname, 0, 0, faults, index, arch_id, "length", format!("{}/{cname:?}: get_contig_length = {len}, full extraction has {} bases (segment raw lengths {:?}, k={k})", s.name, full.len(), seg_lens)));
+                    first = Some(viol(&source, &s.name, &cname, 0, 0, faults, index, arch_id, "length", format!("{}/{cname:?}: get_contig_length = {len}, full extraction has {} bases (segment raw lengths {:?}, k={k})", s.name, full.len(), seg_lens), via_clone));
                 }
             }
             // the (start,end) pairs to ask
@@ -162,9 +180,9 @@ fn explore(source: PipeSpec, only: Option<ReplaySpec>, index: u64, want_sample: 
             let (sn, cn) = (s.name.clone(), cname.clone());
             let pairs2 = pairs.clone();
             let (got, _) = run_plain(world_with(&bytes, faults), move || -> Vec<Result<Vec<u8>, String>> {
-                let mut d = match Decompressor::open(PATH, DecompressorConfig { verbosity: 0 }) {
+                let mut d = match handle(via_clone) {
                     Ok(d) => d,
-                    Err(e) => return vec![Err(format!("{e:#}"))],
+                    Err(e) => return vec![Err(e)],
                 };
                 pairs2.iter().map(|&(a, b)| d.get_contig_range(&sn, &cn, a, b).map_err(|e| format!("{e:#}"))).collect()
             });
@@ -172,7 +190,7 @@ fn explore(source: PipeSpec, only: Option<ReplaySpec>, index: u64, want_sample: 
                 Ok(g) => g,
                 Err(p) => {
                     if first.is_none() {
-                        first = Some(viol(&source, &s.name, &cname, 0, 0, faults, index, arch_id, "panic", format!("range queries on {}/{cname:?} panicked: {p}", s.name)));
+                        first = Some(viol(&source, &s.name, &cname, 0, 0, faults, index, arch_id, "panic", format!("range queries on {}/{cname:?} panicked: {p}", s.name), via_clone));
                     }
                     continue;
                 }
@@ -190,7 +208,7 @@ fn explore(source: PipeSpec, only: Option<ReplaySpec>, index: u64, want_sample: 
                         Err(e) => format!("Err({e})"),
                     };
                     first = Some(viol(&source, &s.name, &cname, *a as u64, *b as u64, faults, index, arch_id, "range-differs",
-                        format!("{}/{cname:?} [{a},{b}) of {n}: got {got_desc}, expected {} bases (segment raw lengths {:?}, k={k})", s.name, exp.len(), seg_lens)));
+                        format!("{}/{cname:?} [{a},{b}) of {n}: got {got_desc}, expected {} bases (segment raw lengths {:?}, k={k})", s.name, exp.len(), seg_lens), via_clone));
                 }
             }
             r.extra_digests.push(seed::fnv_mix(arch_id, seed::fnv64(cname.as_bytes()) ^ pairs.len() as u64));
@@ -213,12 +231,13 @@ fn explore(source: PipeSpec, only: Option<ReplaySpec>, index: u64, want_sample: 
 }
 
 #[allow(clippy::too_many_arguments)]
-fn viol(source: &PipeSpec, sample: &str, contig: &str, a: u64, b: u64, faults: Option<(u8, u8, u64)>, index: u64, arch: u64, class: &str, detail: String) -> Violation {
+fn viol(source: &PipeSpec, sample: &str, contig: &str, a: u64, b: u64, faults: Option<(u8, u8, u64)>, index: u64, arch: u64, class: &str, detail: String, via_clone: bool) -> Violation {
+    let detail = if via_clone { format!("[handle from clone_for_thread] {detail}") } else { detail };
     Violation {
         property: "C07".into(),
         class: class.into(),
         detail,
-        spec: serde_json::to_value(&ReplaySpec { source: source.clone(), sample: sample.into(), contig: contig.into(), start: a, end: b, read_faults: faults }).unwrap(),
+        spec: serde_json::to_value(&ReplaySpec { source: source.clone(), sample: sample.into(), contig: contig.into(), start: a, end: b, read_faults: faults, via_clone }).unwrap(),
         engine: "reader-sim".into(),
         index,
         event_log_digest: seed::fnv_mix(arch, a ^ (b << 32)),
